@@ -535,7 +535,7 @@ func c12World(rc *kernel.RunCtx) {
 	t := rc.T
 	k := kernel.New(t, kernel.M1, 1<<30)
 	kernel.Active = k
-	kn := drawKnobs(t)
+	kn := drawKnobs(t, rc.Run)
 	kn.OwnBuf = false
 	kn.install(t)
 	defer simsync.SetPoolPolicy(nil, 0)
